@@ -29,7 +29,7 @@ CHECKS = {
                  "{frame shorter than memory, single-sample frame, frame spanning two internal blocks}, exact composition for the <=12-granule "
                  "bitmask framings)."),
         "assumptions": ["the one-shot output of a fresh instance of the same class is the reference (metamorphic): a defect that changes one-shot and "
-                        "chunked output identically belongs to C07/C08, not C06", "tolerance 1e-9 of the output scale",
+                        "chunked output identically belongs to C07/C08, not C06", "tolerance 1e-9 of the LOCAL output level (max |reference| over the last 4 x memory + 64 samples, at least 1e-6 of the global scale)",
                         "frames are non-empty multiples of the documented granule"],
     },
     "C14": {
